@@ -19,6 +19,7 @@ import (
 	"strconv"
 	"strings"
 	"sync"
+	"time"
 )
 
 // A data socket is used to send non-control data between the client and
@@ -90,6 +91,9 @@ func (socket *ftpActiveSocket) Write(p []byte) (n int, err error) {
 func (socket *ftpActiveSocket) Close() error {
 	return socket.conn.Close()
 }
+
+// how long a passive socket waits for the client to open the data connection
+const passiveAcceptTimeout = 30 * time.Second
 
 type ftpPassiveSocket struct {
 	conn      net.Conn
@@ -176,7 +180,18 @@ func (socket *ftpPassiveSocket) GoListenAndServe(sessionid string) (err error) {
 	}
 
 	go func() {
+		// one data connection per passive socket. The client may never connect: give up after a
+		// while, so that neither the listening socket, nor this goroutine, nor a transfer command
+		// waiting for the data connection stays behind forever
+		timer := time.AfterFunc(passiveAcceptTimeout, func() {
+			listener.Close()
+		})
+
 		conn, err := listener.Accept()
+
+		timer.Stop()
+		listener.Close()
+
 		socket.wg.Done()
 		if err != nil {
 			socket.err = err
